@@ -1,8 +1,13 @@
 mod arcs;
 mod common;
+mod fam_diff;
+mod fam_fut;
+mod fam_iso;
 mod fam_lit;
 mod fam_path;
 mod fam_race;
+mod fam_spin;
+mod fam_statics;
 mod fam_sync;
 mod pathmon;
 mod lit;
@@ -60,6 +65,7 @@ fn main() {
             std::process::exit(props::replay(&a[2]));
         }
         "child-lit" => std::process::exit(fam_path::child_main(&a[2])),
+        "child-iso" => std::process::exit(fam_iso::child_main(a[2].parse().unwrap(), a[3].parse().unwrap())),
         "child-threads" => std::process::exit(fam_path::child_threads(a[2].parse().unwrap(), a[3].parse().unwrap())),
         "shrink" => std::process::exit(props::shrink(&a[2])),
         "selftest" => std::process::exit(props::selftest()),
